@@ -10,7 +10,8 @@ from common import cstr, clist
 XML_NS = impl.XML_NS
 SVG = "http://www.w3.org/2000/svg"
 XLINK = "http://www.w3.org/1999/xlink"
-URIS = ["u1", "u2", "u3", SVG]
+AMP_URI = "http://x/?a=1&b=2"          # accepted by lxml; needs escaping where it is written into a declaration
+URIS = ["u1", "u2", "u3", SVG, AMP_URI]
 TEXT_PIECES = ["t", "&amp;", "&lt;", "&gt;", '"', "'", "]]&gt;", "ü", " ", "<![CDATA[<c>&]]>", "\n", "€", "𝄞", "\t"]
 ATTR_PIECES = ["v", "&amp;", "&lt;", "&gt;", "&quot;", "'", "ü", " ", "]]&gt;", "€"]
 API_TEXT = ["t", "&", "<", ">", '"', "'", "]]>", "ü", " x ", "\n", "€", "a&amp;b", "𝄞", "<![CDATA[", "\t"]
@@ -26,7 +27,8 @@ def gen_src(rnd, depth=0, scope=None, rich=True):
         u = rnd.choice(URIS + ([""] if p is None else []))
         if not (p is None and depth == 0 and u == ""):
             scope[p] = u
-            decl += (' xmlns="%s"' % u) if p is None else (' xmlns:%s="%s"' % (p, u))
+            ue = u.replace("&", "&amp;")
+            decl += (' xmlns="%s"' % ue) if p is None else (' xmlns:%s="%s"' % (p, ue))
     prefs = [p for p in scope if p is not None and scope[p]]
     pfx = rnd.choice(prefs + [None, None])
     name = (pfx + ":" if pfx else "") + rnd.choice(["a", "b"])
@@ -61,7 +63,7 @@ def gen_src(rnd, depth=0, scope=None, rich=True):
 def gen_api_tree(rnd, depth=0, xmlns_attr=False, special=False):
     """`special`: the tree carries (somewhere) one of the inputs of the known C02 finding classes"""
     """content tree (see common.cnode) to be built through the API: any namespace on any element/attribute"""
-    ns = rnd.choice(["", "", "u1", "u2", "u3", SVG])
+    ns = rnd.choice(["", "", "u1", "u2", "u3", SVG, AMP_URI])
     if special and rnd.random() < .15:
         ns = "a&b"
     attrs = {}
@@ -69,7 +71,7 @@ def gen_api_tree(rnd, depth=0, xmlns_attr=False, special=False):
         if rnd.random() < .12:
             a = (XML_NS, rnd.choice(["lang", "space"]))
         else:
-            a = (rnd.choice(["", "", "u1", "u2", XLINK]), rnd.choice(["k", "j"]))
+            a = (rnd.choice(["", "", "u1", "u2", XLINK, AMP_URI, "a&b"]), rnd.choice(["k", "j"]))
         attrs[a] = "".join(rnd.choice(API_ATTR) for _ in range(rnd.randint(0, 2)))
     if (xmlns_attr and rnd.random() < .4) or (special and rnd.random() < .1):
         attrs[("", "xmlns")] = rnd.choice(["u1", "u9"])
@@ -203,12 +205,17 @@ _start = re.compile(r"<([^\s<>/!?][^\s<>/]*)((?:\s+[^\s=<>/]+\s*=\s*(?:\"[^\"]*\
 _attr = re.compile(r"\s+([^\s=<>/]+)\s*=\s*(\"[^\"]*\"|'[^']*')")
 
 
+def _unesc(v):
+    return v.replace("&lt;", "<").replace("&gt;", ">").replace("&quot;", '"').replace("&amp;", "&")
+
+
 def start_tags(xml):
-    """[(name, [(attr name, raw value)...])] of every start tag in the serializer's output, in order"""
+    """[(name, [(attr name, value)...])] of every start tag in the serializer's output, in order (values with the four
+    entities the serializer writes resolved)"""
     xml = _strip.sub("", xml)
     out = []
     for m in _start.finditer(xml):
-        out.append((m.group(1), [(a, v[1:-1]) for a, v in _attr.findall(m.group(2))]))
+        out.append((m.group(1), [(a, _unesc(v[1:-1])) for a, v in _attr.findall(m.group(2))]))
     return out
 
 
